@@ -326,6 +326,12 @@ func (p *Prefix) Apply(ra *ndp.RouterAdvertisement) error {
 func (p *Prefix) current() ([]netip.Prefix, error) {
 	// Expand ::/N to all unique, non-link local prefixes with matching length
 	// on this interface.
+	if p.Addrs == nil {
+		// Prepare has not been called yet, e.g. because the interface has
+		// never been initialized.
+		return nil, errors.New("interface addresses are not available yet")
+	}
+
 	addrs, err := p.Addrs()
 	if err != nil {
 		return nil, fmt.Errorf("failed to fetch IP addresses: %v", err)
@@ -405,7 +411,13 @@ func (p *Prefix) lifetimes() (valid, pref time.Duration) {
 		panic("plugin: cannot calculate deprecated Prefix lifetimes with zero epoch")
 	}
 
-	now := p.TimeNow()
+	// Prepare may not have been called yet.
+	timeNow := p.TimeNow
+	if timeNow == nil {
+		timeNow = time.Now
+	}
+
+	now := timeNow()
 
 	var (
 		validT = p.Epoch.Add(p.ValidLifetime)
@@ -522,6 +534,12 @@ func (r *Route) current() ([]netip.Prefix, error) {
 	//
 	// TODO(mdlayher): if we choose to accept syntax other than ::/0, we'll have
 	// to update this logic.
+	if r.Routes == nil {
+		// Prepare has not been called yet, e.g. because the interface has
+		// never been initialized.
+		return nil, errors.New("loopback routes are not available yet")
+	}
+
 	routes, err := r.Routes()
 	if err != nil {
 		return nil, err
@@ -595,7 +613,13 @@ func (r *Route) lifetime() time.Duration {
 		panic("plugin: cannot calculate deprecated Route lifetimes with zero epoch")
 	}
 
-	now := r.TimeNow()
+	// Prepare may not have been called yet.
+	timeNow := r.TimeNow
+	if timeNow == nil {
+		timeNow = time.Now
+	}
+
+	now := timeNow()
 	lt := r.Epoch.Add(r.Lifetime)
 
 	if now.Equal(lt) || now.After(lt) {
@@ -691,6 +715,12 @@ func (r *RDNSS) current() (netip.Addr, error) {
 	// Expand :: to one of the IPv6 addresses on this interface. The "best"
 	// address will be chosen by comparing all addresses on the interface for
 	// desired properties.
+	if r.Addrs == nil {
+		// Prepare has not been called yet, e.g. because the interface has
+		// never been initialized.
+		return netip.Addr{}, errors.New("interface addresses are not available yet")
+	}
+
 	addrs, err := r.Addrs()
 	if err != nil {
 		return netip.Addr{}, fmt.Errorf("failed to fetch IP addresses: %v", err)
